@@ -62,7 +62,7 @@ def main():
     import collections
     waves = collections.OrderedDict()
     for s_ in seeds:
-        mm = re.match(r"s\d\d([a-g]?)_", s_["id"])
+        mm = re.match(r"s\d\d([a-h]?)_", s_["id"])
         w = (mm.group(1) if mm else "") or "a"
         meta = {}
         mp = os.path.join(HERE, "seeded", s_["id"], "meta.json")
@@ -78,7 +78,8 @@ def main():
             "| round | seeds | caught at first run by the target check | instruction to the sub-agents |", "|---|---|---|---|"]
     how = {"a": "property text only", "b": "property text + 'not the mechanism of round a'", "c": "+ suggested mechanism areas (mine) to diversify",
            "d": "+ suggested mechanism areas", "e": "+ suggested mechanism areas", "f": "property text + list of the five used mechanisms, free choice otherwise",
-           "g": "property text + list of the six used mechanisms, free choice otherwise (15 properties)"}
+           "g": "property text + list of the six used mechanisms, free choice otherwise (15 properties)",
+           "h": "property text only, free choice of mechanism (6 properties, short final round)"}
     for w, (n_, k_) in waves.items():
         out.append(f"| {w} | {n_} | {k_} | {how.get(w, '')} |")
     out += ["", END]
